@@ -7,6 +7,7 @@ CONSTANTS
   Foreign = {}
   Name = {n1, n2}
   Ctx = {c1, c2}
+  Roam = TRUE
   Fn = {}
   MethFn = {}
   MaxArg = 1
